@@ -19,6 +19,8 @@ from __future__ import annotations
 
 import itertools
 import json
+import os
+import signal
 import warnings
 
 import numpy as np
@@ -192,13 +194,46 @@ def show_calls(calls):
     return " ".join(";".join([str(s), str(e)] + [sl.show_rows(r) for r in per_dep]) for s, e, per_dep in calls)
 
 
+CASE_TIMEOUT_S = float(os.environ.get("C08_CASE_TIMEOUT_S", "60"))     # a case normally takes milliseconds; generous for a loaded machine
+MAX_HANGS = 20            # per process; later cases are skipped (not compared, not counted as anything)
+_HANGS = 0                # hangs seen by this process: after three, later cases get a shorter leash
+
+
+class CaseTimeout(BaseException):
+    """the real Plugin.iter did not return in time (BaseException: the code under test must not swallow it)"""
+
+
+def _on_alarm(signum, frame):
+    raise CaseTimeout()
+
+
 def _real_line(case):
-    r = run_real(case)
+    """one case through the real code under a watchdog: a call that does not return is reported as `err Hang`"""
+    global _HANGS
+    if _HANGS >= MAX_HANGS:
+        return "skipped", ""      # this process already reported MAX_HANGS hangs: do not spend hours on a tree that hangs
+    limit = CASE_TIMEOUT_S if _HANGS < 3 else 5.0
+    armed = False
+    try:
+        signal.signal(signal.SIGALRM, _on_alarm)
+        signal.setitimer(signal.ITIMER_REAL, limit)
+        armed = True
+    except ValueError:        # not in the main thread of this process: no watchdog available here
+        pass
+    try:
+        r = run_real(case)
+    except CaseTimeout:
+        _HANGS += 1
+        return "err Hang", f"Plugin.iter did not return within {limit:g} s"
+    finally:
+        if armed:
+            signal.setitimer(signal.ITIMER_REAL, 0)
     if r[0] == "err":
         return "err " + r[1], r[2]
     return "ok " + show_calls(r[1]), r[2]
 
 
+POOL_STALL_S = 900.0      # > 3 * CASE_TIMEOUT_S + 61 * 5 s, the worst a healthy worker can need for one chunk of 64
 _PRE: dict[int, tuple] = {}     # id(case) -> (line, message), filled by `prefetch` for the current batch
 _FACTS: dict[int, dict] = {}
 _POOL = None
@@ -220,17 +255,35 @@ def _pool():
 
 def prefetch(cases):
     """run the real code on a batch in parallel worker processes (same function, same inputs: only wall time changes)"""
+    global _POOL
     _PRE.clear()
     _FACTS.clear()
     _MSG.clear()
-    if len(cases) < 2000:
-        return
-    try:
-        res = _pool().map(_real_line, cases, chunksize=256)
-    except Exception:  # noqa: BLE001  -- no pool available: fall back to in-process evaluation
-        return
+    _TENPASS.clear()
+    res = []
+    if len(cases) >= 2000:
+        try:
+            it = _pool().imap(_real_line, cases, chunksize=64)
+            for _ in cases:
+                # global guard: every case is under its own watchdog, so a chunk of 64 that takes longer than this
+                # means a worker died (the pool would wait for ever) -- give up on the pool, keep what arrived
+                res.append(it.next(timeout=POOL_STALL_S))
+        except Exception:  # noqa: BLE001  -- no pool / dead worker / stall: the rest is evaluated in-process
+            if _POOL is not None:
+                _POOL.terminate()
+                _POOL = None
+    res += [_real_line(c) for c in cases[len(res):]]
     for c, r in zip(cases, res):
         _PRE[id(c)] = (c, r)
+    n_skipped = sum(1 for r in res if r[0] == "skipped")
+    if n_skipped and _CTX is not None:
+        _CTX.note(f"{n_skipped} cases of a batch of {len(cases)} not run: the evaluating process had already seen {MAX_HANGS} calls of Plugin.iter that did not return")
+    # ten-pass errors: ask the model about all of them in ONE driver call (a changed strax may produce thousands)
+    ten = [c for c, r in zip(cases, res) if r[0] == "err RuntimeError" and "ten passes" in r[1] and _case_key(c) not in _TENPASS]
+    if ten and _CTX is not None and _CTX.model_available:
+        answers = _CTX.driver.run([op_iter(c).replace("c08.iter", "c08.tenpass", 1) for c in ten])
+        for c, ans in zip(ten, answers):
+            _TENPASS[_case_key(c)] = {"ok 11": "limit", "ok 10": "limit-then-error"}.get(ans, "no")
 
 
 def impl_iter(case):
@@ -265,6 +318,9 @@ def dep_tok(d):
 
 
 def op_iter(case):
+    pre = _PRE.get(id(case))
+    if pre is not None and pre[0] is case and pre[1][0] == "skipped":
+        return None
     return "c08.iter s:" + ",".join(str(v) for v in policy_of(case)) + " " + " ".join(dep_tok(d) for d in case["deps"])
 
 
@@ -319,6 +375,10 @@ def _case_facts(case):
 
 
 def oracle_iter(case, out):
+    if out == "skipped":
+        return None
+    if out == "err Hang":
+        return _msg(case) or "Plugin.iter did not return"      # on ANY input: the code under test must terminate
     f = case_facts(case)
     if not f["valid"]:
         return None            # outside the quantifier (malformed stream): model / implementation agreement only
@@ -410,6 +470,8 @@ def err_site(case, out):
 
 
 def branch_iter(case, out):
+    if out == "skipped":
+        return "skipped-after-hangs"
     f = case_facts(case)
     pol = ("strict" if saved_by_default(case) else "tolerant") + ":sw=" + "+".join("NETA"[v] for v in policy_of(case))
     valid = "valid" if f["valid"] else "malformed"
@@ -421,6 +483,8 @@ def branch_iter(case, out):
 
 def nontrivial_iter(case, out):
     """at least two dependencies, at least two rows overall and some dependency in more than one chunk"""
+    if out == "skipped":
+        return False
     deps = case["deps"]
     return len(deps) >= 2 and sum(len(rows) for d in deps for _, _, rows in d["chunks"]) >= 2 \
         and any(len(d["chunks"]) > 1 for d in deps)
